@@ -3,6 +3,7 @@ package protocol
 // C11 — ending a tunnel releases the backend connection and all per-tunnel resources.
 
 import (
+	"context"
 	"net/http"
 	"strconv"
 
@@ -20,6 +21,8 @@ func vpSetupPacket(i int) []byte {
 		return vpPacket(6, []byte{2, 0, 'c', 0})
 	case 3:
 		return vpPacket(8, []byte{1, 0, 0x3d, 0x0d, 3, 0, 2, 0, 'h', 0})
+	case 5:
+		return vpPacket(0xD, []byte{}) // a keep-alive while the channel is open
 	}
 	return vpPacket(0xA, []byte{1, 0, byte(i)})
 }
@@ -91,7 +94,7 @@ func VP_C11_ws() {
 
 //vp:property C11 C10
 //vp:set good 6 8
-//vp:bounds legacy transport pair: RDG_OUT_DATA request then RDG_IN_DATA request with the same connection id; same client behaviours as VP_C11_ws on the IN connection
+//vp:bounds legacy transport pair: RDG_OUT_DATA request then RDG_IN_DATA request with the same connection id; same client behaviours as VP_C11_ws on the IN connection, plus the IN connection being dropped before its first byte
 //vp:reach ended
 func VP_C11_legacy() {
 	vpResetHandlers()
@@ -99,6 +102,8 @@ func VP_C11_legacy() {
 	ending := vpIntRange("ending", 0, 5)
 	out := &vpTransport{}
 	in := vpScript(good, ending)
+	// the IN connection may be dropped right after it was accepted, before its first byte
+	in.drainFails = vpBool("in-dropped-before-first-byte")
 	vpNextTransports = []*vpTransport{out, in}
 	g := &Gateway{}
 	id := vpUser()
@@ -145,4 +150,44 @@ func VP_C10_legacy_order() {
 	}
 	vpReach("served")
 	vpAssert(vpWSGauge.v == 0 && vpLegacyGauge.v == 0, "gauges-restored")
+}
+
+//vp:property C01 C07
+//vp:bounds legacy transport: an OUT/IN pair runs a tunnel that ends (rejected cookie -> error response, or a full set-up followed by CLOSE_CHANNEL); then, while the tunnel is still remembered under its connection id, the client opens a new OUT/IN pair with the SAME id and sends a complete set-up sequence on it
+//vp:reach second-pair
+func VP_C01_legacy_dead_tunnel() {
+	vpResetHandlers()
+	g := &Gateway{TokenAuth: true}
+	refuse := vpBool("first-tunnel-ends-by-rejected-cookie")
+	g.CheckPAACookie = func(ctx context.Context, c string) (bool, error) { return !refuse, nil }
+	id := vpUser()
+	mk := func(method string) *http.Request {
+		r := &http.Request{Method: method, Header: http.Header{"Rdg-Connection-Id": {"conn-1"}}}
+		return identity.AddToRequestCtx(id, r)
+	}
+	hs := func() []byte { return vpPacket(1, []byte{1, 0, 0, 0, 2, 0}) } // client offers PAA
+	out1, in1 := &vpTransport{}, &vpTransport{}
+	if refuse {
+		in1.in = [][]byte{hs(), vpSetupPacket(1)}
+	} else {
+		in1.in = [][]byte{hs(), vpSetupPacket(1), vpSetupPacket(2), vpSetupPacket(3), vpSetupPacket(4), vpPacket(0x10, []byte{})}
+	}
+	vpNextTransports = []*vpTransport{out1, in1}
+	g.HandleGatewayProtocol(&vpHTTPW{hdr: http.Header{}}, mk(MethodRDGOUT))
+	g.HandleGatewayProtocol(&vpHTTPW{hdr: http.Header{}}, mk(MethodRDGIN))
+	dials1, answered1 := len(vpDialLog), len(out1.out)
+	vpAssert(answered1 >= 1, "first-tunnel-was-answered")
+	// the same connection id again
+	refuse = false
+	out2, in2 := &vpTransport{}, &vpTransport{}
+	in2.in = [][]byte{hs(), vpSetupPacket(1), vpSetupPacket(2), vpSetupPacket(3), vpSetupPacket(4)}
+	vpNextTransports = []*vpTransport{out2, in2}
+	g.HandleGatewayProtocol(&vpHTTPW{hdr: http.Header{}}, mk(MethodRDGOUT))
+	g.HandleGatewayProtocol(&vpHTTPW{hdr: http.Header{}}, mk(MethodRDGIN))
+	vpReach("second-pair")
+	vpDropTasks()
+	// after the error response / channel close nothing further on THAT tunnel is answered or causes a connection
+	vpAssert(len(out1.out) == answered1, "nothing-more-sent-on-the-ended-tunnels-out-channel")
+	vpAssert(len(out2.out) == 0 && in2.pos == 0, "packets-for-an-ended-tunnel-are-not-answered")
+	vpAssert(len(vpDialLog) == dials1, "an-ended-tunnel-opens-no-further-backend-connection")
 }
